@@ -72,6 +72,15 @@ def run_kvdrive(script_text, wd, name, variant="rel", env=None, timeout=120, tas
     (C05, hang_is_verdict), a timed-out run is repeated once alone (machine-wide lock) with three times the
     budget, and if it still does not finish the check is inconclusive (Broken, exit 2), not a violation."""
     tp, rc, err = _run_kvdrive_once(script_text, wd, name, variant, env, timeout, taskset, stdin_bytes, leaks)
+    # LeakSanitizer's own tracer sometimes dies at exit ("LeakSanitizer has encountered a fatal error", seen with OpenMP worker
+    # threads on a loaded machine, after the script had run to its End event): that is a failure of the tool, not a report
+    # about kalign. Repeat; if it persists, repeat without leak detection and say so.
+    tries = 0
+    while rc != 0 and "LeakSanitizer has encountered a fatal error" in err and tries < 3:
+        tries += 1
+        tp, rc, err = _run_kvdrive_once(script_text, wd, name, variant, env, timeout, taskset, stdin_bytes, leaks if tries < 3 else False)
+        if tries == 3:
+            sys.stdout.write("NOTE: LeakSanitizer failed three times on %s; the run was repeated without leak detection\n" % os.path.join(wd, name + ".kv"))
     if rc == 124 and hang_is_verdict is not True:
         import fcntl
         os.makedirs(WORK, exist_ok=True)
@@ -118,6 +127,10 @@ def _run_kvdrive_once(script_text, wd, name, variant, env, timeout, taskset, std
 def run_cli(args, variant="rel", stdin_bytes=None, timeout=60, env=None, cwd=None, leaks=False, hang_is_verdict=True):
     """returncode 124 = timeout; hang_is_verdict="retry": a timed-out run is repeated once alone with three times the budget"""
     r = _run_cli_once(args, variant, stdin_bytes, timeout, env, cwd, leaks)
+    tries = 0
+    while r[0] != 0 and b"LeakSanitizer has encountered a fatal error" in r[2] and tries < 3:
+        tries += 1
+        r = _run_cli_once(args, variant, stdin_bytes, timeout, env, cwd, leaks if tries < 3 else False)
     if r[0] == 124 and hang_is_verdict == "retry":
         import fcntl
         os.makedirs(WORK, exist_ok=True)
